@@ -177,7 +177,7 @@ struct Found { uint64_t seed; int variant; std::string sig, detail, kind; };
 
 static void worker_loop(const Profile &pf, uint64_t base, int w, int W, double deadline, long max_seeds, bool thorough, int outfd, const std::vector<Known> &known) {
     FILE *out = fdopen(outfd, "w");
-    WStats st; long nfound = 0;
+    WStats st; long nfound = 0; long seeds_done = 0;
     auto account = [&](const Program &p, const RunResult &r) {
         st.evals++; st.steps += r.st.steps; st.events += r.st.events; st.switches += r.st.switches; st.coll += r.st.coll; st.fileio += r.st.fileio; st.bytes += r.st.bytes_written + r.st.bytes_read;
         for (int k = 0; k < sim::F_KIND_COUNT; k++) st.fault_fired[k] += r.st.fault_fired[k];
@@ -200,7 +200,7 @@ static void worker_loop(const Profile &pf, uint64_t base, int w, int W, double d
         fprintf(out, "S %llu\n", (unsigned long long)seed); fflush(out);
         Program p = pf.gen(seed, thorough);
         RunResult r = pf.check(p);
-        account(p, r);
+        account(p, r); seeds_done++;
         if (!r.violations.empty()) { report(seed, -1, r); continue; }
         if (pf.variants) {
             std::vector<Program> vs = pf.variants(p, r, thorough);
@@ -213,7 +213,7 @@ static void worker_loop(const Profile &pf, uint64_t base, int w, int W, double d
     }
     // end-of-batch stats
     Json e = Json::obj();
-    e.set("evals", st.evals).set("nontrivial", st.nontrivial).set("steps", st.steps).set("events", st.events).set("switches", st.switches).set("coll", st.coll).set("fileio", st.fileio).set("bytes", st.bytes).set("known_suppressed", st.known_suppressed);
+    e.set("seeds_done", seeds_done).set("evals", st.evals).set("nontrivial", st.nontrivial).set("steps", st.steps).set("events", st.events).set("switches", st.switches).set("coll", st.coll).set("fileio", st.fileio).set("bytes", st.bytes).set("known_suppressed", st.known_suppressed);
     Json ff = Json::obj(); for (int k = 0; k < sim::F_KIND_COUNT; k++) ff.set(sim::fault_kind_name[k], st.fault_fired[k]); e.set("faults", ff);
     Json pr = Json::obj(); for (auto &kv : st.probes) pr.set(kv.first, kv.second); e.set("probes", pr);
     Json si = Json::obj(); for (auto &kv : st.sites) si.set(kv.first, kv.second); e.set("sites", si);
@@ -317,9 +317,10 @@ int check_main(int argc, char **argv) {
         }
     }
     // 2. aggregate
-    WStats tot; std::set<uint64_t> distinct; std::vector<std::string> samples;
+    WStats tot; std::set<uint64_t> distinct; std::vector<std::string> samples; long long min_worker_evals = -1;
     std::map<std::string, long> probes, sites, faults;
     for (auto &e : ends) {
+        { long long se = e.at("seeds_done").num(); if (min_worker_evals < 0 || se < min_worker_evals) min_worker_evals = se; }
         tot.evals += e.at("evals").num(); tot.nontrivial += e.at("nontrivial").num(); tot.steps += e.at("steps").num(); tot.events += e.at("events").num(); tot.switches += e.at("switches").num();
         tot.coll += e.at("coll").num(); tot.fileio += e.at("fileio").num(); tot.bytes += e.at("bytes").num(); tot.known_suppressed += e.at("known_suppressed").num();
         for (auto &kv : e.at("faults").o) faults[kv.first] += kv.second.num();
@@ -372,7 +373,8 @@ int check_main(int argc, char **argv) {
     Json cov = Json::obj();
     cov.set("evaluations", tot.evals).set("distinct_nontrivial", (long long)distinct.size()).set("rule", pf->rule);
     Json sm = Json::arr(); for (auto &s : samples) sm.push(s); if (sm.a.empty()) sm.push("(no sample recorded)"); cov.set("samples", sm);
-    cov.set("exhaustive", pf->exhaustive).set("nontrivial_runs", tot.nontrivial).set("runs_per_hour", (long long)(tot.evals / std::max(wall, 0.001) * 3600))
+    bool exhaustive_now = pf->exhaustive || (pf->space_seeds > 0 && base == 1 && crashes == 0 && min_worker_evals * W >= pf->space_seeds);
+    cov.set("exhaustive", exhaustive_now).set("finite_space_seeds", (long long)pf->space_seeds).set("nontrivial_runs", tot.nontrivial).set("runs_per_hour", (long long)(tot.evals / std::max(wall, 0.001) * 3600))
         .set("seeds_from", (long long)base).set("scheduler_steps", tot.steps).set("simulated_events", tot.events).set("simulated_time_us", tot.events + tot.steps)
         .set("rank_switches", tot.switches).set("mpi_collectives", tot.coll).set("mpiio_calls", tot.fileio).set("bytes_transferred", tot.bytes)
         .set("distinct_measure", "hash of (op-kind/form/memtype shape of the program, fault plan, sequence of (rank, blocking call) at every scheduling decision)")
